@@ -220,6 +220,8 @@ def verb_programs(built):
         ("union-then-mutate", lambda: a >> pdt.union(b) >> pdt.mutate(z=C.i8 + 1, w=C.f64 * 2)),
         ("all-null-column", lambda: a >> pdt.filter(a.k == 2) >> pdt.mutate(z=a.i8 + 1)),
         ("window", lambda: a >> pdt.mutate(r=pdt.row_number(arrange=a.k), sh=a.i8.shift(1, arrange=a.k), cs=a.f32.cum_sum(arrange=a.k), rk=pdt.rank(arrange=a.k))),
+        ("float-fn-int-values", lambda: a >> pdt.filter(a.k == 2) >> pdt.mutate(y1=a.f64.fill_null(0), y2=pdt.coalesce(a.f32, 7), y3=pdt.max(a.f64, 5), y4=pdt.min(a.f64, a.k))),
+        ("float-fn-int-values-agg", lambda: a >> pdt.filter(a.k == 2) >> pdt.summarize(m1=a.f64.fill_null(0).max(), m2=pdt.coalesce(a.f64, a.k).min(), m3=a.f64.fill_null(3).mean())),
         ("mutate-round", lambda: a >> pdt.mutate(r1=a.i8.round(-1), r2=a.i64.round(-1), r3=a.f32.round(-1), r4=a.u16.round(1), r5=a.f64.round(0))),
         ("slice-arrange", lambda: a >> pdt.arrange(a.k) >> pdt.slice_head(1)),
     ]
